@@ -88,6 +88,11 @@ def gen_case(rng, tier):
     # the same successor => exact ties at NON-ZERO maxima in the rows that later serve as successor rows
     # (first-max tie-breaking of maxCoeff / the greedy scan, and the single greedy mass of the expected backup)
     tie = rng.random() < 0.2
+    # tail regime (evaluation learners): tiny non-zero target probabilities and large-magnitude rewards
+    tail = (not tie) and kind == "oevl" and rng.random() < 0.35
+    if tail:
+        general = False; every = 1; nA = rng.choice([2, 2, 3, 4]); n = min(n, 40)
+        alpha = rng.choice(["1", "1/2"]); gamma = rng.choice(["1/2", "3/4"])
     if tie:
         general = False; alpha = "1"; gamma = rng.choice(["1/2", "3/4"]); every = 1
         nS = rng.choice([1, 2, 2, 3]); nA = rng.choice([2, 2, 3, 4]); n = rng.randint(nA + 1, 36)
@@ -102,7 +107,7 @@ def gen_case(rng, tier):
         toks += [nS, nA, alpha, beta, gamma, every, n]
     elif kind in ("sarsal", "octl", "oevl"):
         lam = rng.choice(["0", "1/2", "1"]) if not general or rng.random() < 0.5 else (0.9).hex()
-        if tie: lam = rng.choice(["0", "0", "1/2"])
+        if tie or tail: lam = rng.choice(["0", "0", "1/2"])
         tol = rng.choice(["1/64", "1/8", "1/1024", "0", "1/2"]) if not general else rng.choice([(0.001).hex(), (0.01).hex()])
         if kind == "sarsal":
             toks += [nS, nA, alpha, gamma, lam, tol, every, n]
@@ -111,6 +116,18 @@ def gen_case(rng, tier):
             toks += [k, nS, nA, alpha, gamma, lam, tol]
             if kind == "octl":
                 toks.append(rng.choice(["0", "1/4", "1/2", "1"]) if not general else (0.1).hex())
+            elif tail:
+                # nearly deterministic target rows: one action with a dyadic tail probability 2^-20..2^-30
+                # (below the 1e-6 of checkDifferentSmall), the rest on k/8 shares, the remainder on the main action
+                for _ in range(nS):
+                    kk = rng.randint(20, 30); den = 1 << kk
+                    acts = list(range(nA)); rng.shuffle(acts)
+                    row = [0] * nA
+                    row[acts[1]] = 1
+                    for x in acts[2:]:
+                        row[x] = rng.choice([0, 0, 1, 2]) * (den // 8)
+                    row[acts[0]] = den - sum(row)
+                    toks += ["%d/%d" % (x, den) for x in row]
             else:
                 for _ in range(nS): toks += dist_row(rng, nA)
             # un-synchronised batches (every > 1) only where every number stays dyadic: otherwise the exact
@@ -132,7 +149,7 @@ def gen_case(rng, tier):
     chained = rng.random() < 0.7
     s = st()
     # run-time setters (only right after a dump, so that a re-synchronised batch has constant parameters)
-    with_setters = (not tie) and rng.random() < 0.45
+    with_setters = (not tie) and (not tail) and rng.random() < 0.45
     plan = []
     if tie:
         rc = rng.choice(["-1", "-2", "3", "1/2", "-3/2", "5"])
@@ -162,7 +179,7 @@ def gen_case(rng, tier):
         if tie: s, a, s1 = plan[i]
         toks += [s, a, s1]
         if kind in ("sarsa", "sarsal"): toks.append(ac())
-        toks.append(rc if tie else rconst if extreme else reward(rng, general))
+        toks.append(rc if tie else rconst if extreme else str(rng.randint(-64, 64) * 256) if (tail and rng.random() < 0.6) else reward(rng, general))
         if kind == "esarsa": toks += dist_row(rng, nA)
         s = s1 if chained else st()
     return " ".join(map(str, toks))
